@@ -463,3 +463,56 @@ func paramIndex(canon string) int {
 	}
 	return n
 }
+
+func init() {
+	old := All["C02"].Run
+	All["C02"].Run = func(c *an.Ctx) {
+		old(c)
+		c02everyFileUpdatesLoadContext(c)
+		c02outOfOrderDecodedIntoOwnRecord(c)
+	}
+	All["C02"].Rules += " R12 R13"
+	addLevel("C02", "every data file opened at start-up (ordered or not) updates the load context, from which the file sequence counter is restored (a too low counter lets a new out-of-order file replace an existing one); the out-of-order record that the merge cursor keeps by reference is decoded into a record of its own, never into the circular pool the ordered reads recycle.")
+}
+
+// c02everyFileUpdatesLoadContext — C02.R12.
+func c02everyFileUpdatesLoadContext(c *an.Ctx) {
+	const I = "engine/immutable"
+	r := c.Rule("C02.R12", "K-ORDER(pairing)", I+": fileLoader — every file loaded into memory also updates the load context (max sequence, max time), whatever its order kind")
+	for _, spec := range []string{I + ":fileLoader.addTSSPFile", I + ":fileLoader.serialLoadTsspFile"} {
+		f := fn(r, spec)
+		if f == nil {
+			continue
+		}
+		load := f.Find(call(r, I+":fileLoader.loadIntoMemory"))
+		upd := f.Find(call(r, I+":fileLoadContext.update"))
+		if !r.Failed() {
+			f.FollowedBy(r, load, upd, nil, "loadIntoMemory ⇒ ctx.update on every way out")
+		}
+	}
+}
+
+// c02outOfOrderDecodedIntoOwnRecord — C02.R13.
+func c02outOfOrderDecodedIntoOwnRecord(c *an.Ctx) {
+	const E = "engine"
+	r := c.Rule("C02.R13", "K-PROVENANCE", E+":(*tsmMergeCursor).FirstTimeInit — out-of-order segments are decoded into a fresh record (record.NewRecordBuilder), not into the circular pool of the ordered reads")
+	f := fn(r, E+":tsmMergeCursor.FirstTimeInit")
+	if f == nil {
+		return
+	}
+	rd := f.Find(call(r, E+":tsmMergeCursor.readData"))
+	r.AddSites(rd.Len())
+	if rd.Len() == 0 && !r.Failed() {
+		r.Fail(f.Name+": no read", c.P.Pos(f.Body.Pos()), "FirstTimeInit no longer reads the out-of-order locations")
+	}
+	for _, s := range rd.List {
+		ce := s.Node.(*ast.CallExpr)
+		if len(ce.Args) != 2 {
+			continue
+		}
+		cn := f.Canon(ce.Args[1])
+		if !strings.HasPrefix(cn, "record.NewRecordBuilder(") && !strings.HasPrefix(cn, "record.NewRecord(") {
+			r.Fail(f.Name+": decode destination", c.P.Pos(ce.Pos()), "the out-of-order segment is decoded into %s: the first out-of-order record is kept by reference while Next() recycles the slots of the circular pool, so its rows are overwritten by a later ordered read", cn)
+		}
+	}
+}
